@@ -531,8 +531,8 @@ def finding_for(name, kinds, n, layout):
         return 'C03-str-itemsize'
     if name.startswith('dropna1') and m == 1:
         return 'C03-dropna-1d-block'
-    if name.startswith(('fillna_forward1', 'fillna_backward1')) and 'O' in kinds and 'M' in kinds:
-        return 'C03-fill-axis1-datetime-class'
+    if name.startswith(('fillna_forward1', 'fillna_backward1')) and len({column(k, 0, 0).dtype for k in kinds}) > 1:
+        return 'C03-fill-axis1-block-dtype'
     return None
 
 
@@ -578,7 +578,7 @@ def short(o, limit=160):
 QUICK_KINDS = ['', 'i', 'f', 'U', 'O', 'b', 'ii', 'if', 'fO', 'UU', 'iii', 'iif', 'UUf', 'bbO', 'iiff', 'iUUi']
 THOROUGH_FRAMES = (
     [(k, (0, 1, 2, 3, 4)) for k in ['', 'i', 'f', 'U', 'O', 'b', 'M', 'h']]
-    + [(k, (0, 1, 3)) for k in ['ii', 'if', 'fO', 'UU', 'bb', 'OO', 'gg', 'hi']] + [('OM', (2,))]
+    + [(k, (0, 1, 3)) for k in ['ii', 'if', 'fO', 'UU', 'bb', 'OO', 'gg', 'hi']] + [('OM', (2,)), ('fgb', (2,))]
     + [(k, (1, 3)) for k in ['iii', 'iif', 'fii', 'UUf', 'bbO', 'hhi', 'MMi', 'ggi', 'bib']]
     + [('iiii', (0, 1, 3))] + [(k, (1, 3)) for k in ['iiff', 'iUUi', 'OOii']] + [(k, (3,)) for k in ['ifif', 'ffff', 'fiib', 'hhgg']]
     + [('iiiii', (3,)), ('iifff', (3,)), ('ifbUO', (1,))])
@@ -588,7 +588,7 @@ ALL_KINDS = 'ihgfbUOM'
 
 QUICK_FRAMES = [('', (0, 1, 3)), ('i', (0, 1, 3)), ('f', (0, 1, 3)), ('U', (0, 2)), ('O', (1, 3)), ('ii', (0, 1, 3)), ('if', (0, 1, 3)),
                 ('UU', (1, 3)), ('fO', (0, 2)), ('iii', (1, 3)), ('iif', (0, 2)), ('bbO', (1, 3)), ('iiff', (1, 3)), ('iUUi', (0, 2)),
-                ('hi', (2,)), ('OM', (2,)), ('iiii', (3,))]
+                ('hi', (2,)), ('OM', (2,)), ('fgb', (2,)), ('iiii', (3,))]
 
 
 def frame_space(ctx):
